@@ -23,9 +23,25 @@ def budget(tier):
     return {"quick": 150, "thorough": 2500}[tier]
 
 
+def geometry_view(s):
+    """C02 is about the cells' boxes: of a partition dump keep, per node, (id, depth, box); the index labels, the
+    parent/child links and the per-depth lists are C03's subject and are compared there."""
+    if not s.startswith("depth="):
+        return s
+    try:
+        nodes = s.split(" nodes=", 1)[1].split(" ")
+        out = []
+        for nd in nodes:
+            f_ = nd.split(":")
+            out.append(f_[0] + ":" + f_[1] + ":" + ":".join(f_[5:]))
+        return " ".join(out)
+    except Exception:
+        return s
+
+
 def explore(tier, seed, n):
     cases = [part_cases.gen_partition_case(seed + 101, i, wellformed=True) for i in range(n)]
-    mism, n_ops = fw.compare(cases)
+    mism, n_ops = fw.compare(cases, view=geometry_view)
     return {"cases": cases, "mism": mism, "n_ops": n_ops}
 
 
